@@ -64,7 +64,14 @@ impl Extractor {
                 let name = utils::hash_to_string(&self.metainfo.piece(end.file_index)) + ".piece";
                 let reader = &mut BufReader::new(File::open(name)?);
 
-                let mut buffer = vec![0; end.byte_index];
+                // File that starts inside this very piece begins at its own offset
+                let skip = match start.file_index == end.file_index {
+                    true => start.byte_index,
+                    false => 0,
+                };
+                reader.seek(std::io::SeekFrom::Start(skip as u64))?;
+
+                let mut buffer = vec![0; end.byte_index - skip];
                 reader.read_exact(buffer.as_mut_slice())?;
                 writer.write_all(buffer.as_slice())?;
             }
